@@ -169,10 +169,6 @@ func split(ctx context.Context, node *mastNode, key interface{}, mast *Mast) (le
 			return nil, nil, err
 		}
 	}
-	// TODO: common case maybe not dirty
-	node.dirty = true
-	node.expected = nil
-	node.source = nil
 	return leftLink, rightLink, nil
 }
 
